@@ -129,27 +129,30 @@ theorem frontChar_eq (sp : List Sym) :
 
 /-! ## 2. the builder -/
 
-@[simp] theorem popFront_nil (n : Nat) : BState.popFront ⟨[], n⟩ = .panic "tree is empty" := rfl
-@[simp] theorem popFront_cons (a : Node) (r : List Node) (n : Nat) :
-    BState.popFront ⟨a :: r, n⟩ = .ok (a, ⟨r, n⟩) := rfl
+@[simp] theorem popFront_nil (n : Nat) (es : List (List Sym)) :
+    BState.popFront ⟨[], n, es⟩ = .panic "tree is empty" := rfl
+@[simp] theorem popFront_cons (a : Node) (r : List Node) (n : Nat) (es : List (List Sym)) :
+    BState.popFront ⟨a :: r, n, es⟩ = .ok (a, ⟨r, n, es⟩) := rfl
 
 /-- `addList` on a stack with at least two entries: `a` on top, `b` below.  If `b` already is a
     list of the requested type, `a` is appended to it (flattening on the LEFT only); otherwise a
     new two-element list `[b, a]` is made. -/
-theorem builder_addList_flatten (ty : NType) (a b : Node) (rest : List Node) (n : Nat) :
-    addList ty ⟨a :: b :: rest, n⟩ =
-      .ok ⟨(if b.t = ty then b.pushBack a else Node.mk ty [] 0 [b, a]) :: rest, n⟩ := by
+theorem builder_addList_flatten (ty : NType) (a b : Node) (rest : List Node) (n : Nat)
+    (es : List (List Sym)) :
+    addList ty ⟨a :: b :: rest, n, es⟩ =
+      .ok ⟨(if b.t = ty then b.pushBack a else Node.mk ty [] 0 [b, a]) :: rest, n, es⟩ := by
   simp only [addList, popFront_cons, BState.pushFront]
   split <;> simp [Node.pushBack]
 
-theorem addList_short (ty : NType) (items : List Node) (n : Nat) (h : items.length < 2) :
-    addList ty ⟨items, n⟩ = .panic "tree is empty" := by
+theorem addList_short (ty : NType) (items : List Node) (n : Nat) (es : List (List Sym))
+    (h : items.length < 2) :
+    addList ty ⟨items, n, es⟩ = .panic "tree is empty" := by
   match items, h with
   | [], _ => rfl
   | [_], _ => rfl
 
-theorem builder_addFix (ty : NType) (a : Node) (rest : List Node) (n : Nat) :
-    addFix ty ⟨a :: rest, n⟩ = .ok ⟨Node.mk ty [] 0 [a] :: rest, n⟩ := by
+theorem builder_addFix (ty : NType) (a : Node) (rest : List Node) (n : Nat) (es : List (List Sym)) :
+    addFix ty ⟨a :: rest, n, es⟩ = .ok ⟨Node.mk ty [] 0 [a] :: rest, n, es⟩ := by
   simp [addFix, BState.pushFront, Node.pushBack]
 
 /-- Number of deque entries a call needs (it pops that many before anything else can go wrong). -/
@@ -178,7 +181,7 @@ theorem Op.apply_spec (o : Op) (st : BState) :
     (o.need ≤ st.items.length ∧
       ((∃ st', o.apply st = .ok st' ∧ st'.items.length = st.items.length - o.need + o.out) ∨
        (∃ m, o.apply st = .unsupported m))) := by
-  obtain ⟨items, rc⟩ := st
+  obtain ⟨items, rc, errs⟩ := st
   cases o
   case addDoubleCharacter s =>
     right
@@ -210,6 +213,11 @@ theorem Op.apply_spec (o : Op) (st : BState) :
           · exact .inr ⟨_, rfl⟩
         · exact .inr ⟨_, rfl⟩
       · exact .inr ⟨_, rfl⟩
+  case addHexaCharacter s =>
+    right
+    refine ⟨by simp [Op.need], .inl ⟨_, rfl, ?_⟩⟩
+    simp only [Op.need, Op.out, addCharacterS, BState.pushFront]
+    split <;> simp [BState.addErr]
   all_goals
     first
     | (right
@@ -324,13 +332,101 @@ theorem runeOfInt_parse (v : Nat) :
     · rw [if_pos h2, if_neg (by omega)]
     · rw [if_neg h2, if_pos (by omega)]
 
+/-- `v` is a Unicode code point: at most U+10FFFF and not a surrogate. -/
+def isCodePoint (v : Nat) : Bool :=
+  decide (v ≤ 0x10FFFF) && !(decide (0xD800 ≤ v) && decide (v ≤ 0xDFFF))
+
+theorem isCodePoint_iff (v : Nat) :
+    isCodePoint v = true ↔ v ≤ 0x10FFFF ∧ ¬ (0xD800 ≤ v ∧ v ≤ 0xDFFF) := by
+  simp only [isCodePoint, Bool.and_eq_true, Bool.not_eq_true', Bool.and_eq_false_iff,
+    decide_eq_true_eq, decide_eq_false_iff_not]
+  omega
+
+theorem clampRune_eq (v : Nat) : clampRune v = if isCodePoint v = true then v else 0xFFFD := by
+  unfold clampRune
+  simp only [isCodePoint_iff]
+
+/-- `_, err := ParseInt(s, base, 32)` on a non-empty string of valid digits with value `v`: the only
+    possible error is the range error, for `v ≥ 2^31`. -/
+theorem parseIntErr32_digits (base : Nat) (ds : List Sym) (v : Nat) (hne : ds ≠ [])
+    (hv : digitsVal base ds 0 = some v) :
+    parseIntErr32 base ds = decide (v ≥ 2147483648) := by
+  have hmag : parseMagErr32 base false ds = decide (v ≥ 2147483648) := by
+    unfold parseMagErr32
+    split
+    · exact absurd rfl hne
+    · rw [hv]
+      simp only [Bool.false_eq_true, if_false]
+      by_cases h1 : v > 4294967295
+      · have h2 : v ≥ 2147483648 := by omega
+        simp [h1, h2]
+      · simp [h1]
+  match ds, hne with
+  | c :: cs, _ =>
+    have hc : c ≠ 43 ∧ c ≠ 45 := by
+      constructor <;> intro hc <;> subst hc <;>
+        simp [digitsVal, (digitVal_sign base).1, (digitVal_sign base).2] at hv
+    unfold parseIntErr32
+    split
+    · next h => cases h; exact absurd rfl hc.1
+    · next h => cases h; exact absurd rfl hc.2
+    · exact hmag
+
+/-- `utf8.ValidRune` of what `ParseInt` returns for the digit value `v` (saturated at `2^31 - 1`,
+    which is no code point). -/
+theorem validRune_parse (v : Nat) :
+    validRune (if v ≥ 2147483648 then 2147483647 else Int.ofNat v) = isCodePoint v := by
+  by_cases h : v ≥ 2147483648
+  · rw [if_pos h]
+    have : isCodePoint v = false := by
+      cases hc : isCodePoint v with
+      | false => rfl
+      | true => have := (isCodePoint_iff v).mp hc; omega
+    rw [this]; decide
+  · rw [if_neg h]
+    show (decide (v < 0xD800) || (decide (0xDFFF < v) && decide (v ≤ 0x10FFFF))) = _
+    cases hc : isCodePoint v with
+    | true =>
+      have := (isCodePoint_iff v).mp hc
+      by_cases h1 : v < 0xD800
+      · simp [h1]
+      · have h2 : 0xDFFF < v := by omega
+        have h3 : v ≤ 0x10FFFF := this.1
+        simp [h2, h3]
+    | false =>
+      have hn : ¬ (v ≤ 0x10FFFF ∧ ¬ (0xD800 ≤ v ∧ v ≤ 0xDFFF)) := by
+        intro hh; rw [(isCodePoint_iff v).mpr hh] at hc; cases hc
+      have h1 : ¬ v < 0xD800 := by omega
+      have h2 : ¬ (0xDFFF < v ∧ v ≤ 0x10FFFF) := by omega
+      simp only [h1, decide_false, Bool.false_or, Bool.and_eq_false_iff, decide_eq_false_iff_not]
+      omega
+
+/-- The test of `AddHexaCharacter` (`err != nil || !utf8.ValidRune(rune(hexa))`) on a non-empty
+    string of hex digits with value `v` fires exactly when `v` is no code point. -/
+theorem hex_reported_iff (ds : List Sym) (v : Nat) (hne : ds ≠ [])
+    (hv : digitsVal 16 ds 0 = some v) :
+    (parseIntErr32 16 ds || !validRune (parseInt32 16 ds)) = !isCodePoint v := by
+  rw [parseIntErr32_digits 16 ds v hne hv, parseInt32_digits 16 ds v hne hv, validRune_parse]
+  cases hc : isCodePoint v with
+  | false => simp
+  | true =>
+    have := (isCodePoint_iff v).mp hc
+    have : ¬ v ≥ 2147483648 := by omega
+    simp [this]
+
 /-- `AddHexaCharacter(text)` for EVERY non-empty string of hex digits: the character whose code
-    point is the hex value, U+FFFD when that is no code point (surrogate or above U+10FFFF,
-    including values that overflow int32/uint64). -/
+    point is the hex value and no error when that value is a code point; otherwise (surrogate or
+    above U+10FFFF, including values that overflow int32/uint64) the error naming the escape is
+    recorded — so `Compile` fails — and the node that keeps the deque balanced holds U+FFFD. -/
 theorem escape_hex_spec (ds : List Sym) (v : Nat) (st : BState) (hne : ds ≠ [])
     (hv : digitsVal 16 ds 0 = some v) :
-    (Op.addHexaCharacter ds).apply st = .ok (st.pushFront (.leaf .character [clampRune v])) := by
-  simp only [Op.apply, addCharacterS, parseInt32_digits 16 ds v hne hv, runeOfInt_parse]
+    (Op.addHexaCharacter ds).apply st =
+      .ok (if isCodePoint v = true then st.pushFront (.leaf .character [v])
+           else (st.addErr (hexErrMsg ds)).pushFront (.leaf .character [0xFFFD])) := by
+  have hc := hex_reported_iff ds v hne hv
+  simp only [Op.apply, addCharacterS, hc]
+  rw [parseInt32_digits 16 ds v hne hv, runeOfInt_parse, clampRune_eq]
+  cases isCodePoint v <;> simp
 
 /-- `AddOctalCharacter(text)` for every non-empty string of octal digits. -/
 theorem escape_octal_spec (ds : List Sym) (v : Nat) (st : BState) (hne : ds ≠ [])
@@ -388,6 +484,17 @@ theorem frontCore_ok_sound (G : Grammar) (acts tbl) (entry : String) (text : Lis
   · cases h
   · next p forest evs he => exact ⟨p, forest, evs, evalF_sound _ _ _ _ _ he⟩
 
+/-- A text the model front end reports because of an error the builder recorded (a hex escape without
+    a code point) is in the PEG language of the grammar too: it is not a syntax error. -/
+theorem frontCore_invalid_sound (G : Grammar) (acts tbl) (entry : String) (text : List Sym) (fuel : Nat)
+    (errs : List (List Sym)) (h : frontCore G acts tbl entry text fuel = .invalid errs) :
+    ∃ p forest evs, Eval G (fun _ _ => false) text (.name entry) 0 (.ok p forest) evs := by
+  unfold frontCore at h
+  split at h
+  · cases h
+  · cases h
+  · next p forest evs he => exact ⟨p, forest, evs, evalF_sound _ _ _ _ _ he⟩
+
 /-- A text the model front end reports as a syntax error is not in that language. -/
 theorem frontCore_syntaxError_sound (G : Grammar) (acts tbl) (entry : String) (text : List Sym)
     (fuel : Nat) (h : frontCore G acts tbl entry text fuel = .syntaxError) :
@@ -398,7 +505,11 @@ theorem frontCore_syntaxError_sound (G : Grammar) (acts tbl) (entry : String) (t
   · next evs he => exact ⟨evs, evalF_sound _ _ _ _ _ he⟩
   · split at h
     · cases h
-    · split at h <;> cases h
+    · split at h
+      · unfold BState.finish at h
+        split at h <;> cases h
+      · cases h
+      · cases h
 
 /-- The fuel only decides WHETHER the model answers, never WHAT it answers. -/
 theorem frontCore_fuel_irrelevant (G : Grammar) (acts tbl) (entry : String) (text : List Sym)
